@@ -45,7 +45,8 @@ def cases(tier, seed):
             nb = len(mesh["levels"][lv])
             if 2 <= nb <= 3:
                 L = scope.layouts(nb, 'idrev')
-                for lay in (L[1:] if tier == "thorough" else [L[-1], L[len(L) // 2], L[-2]]):
+                nonmono = [l for l in L if any(len(f) > 1 and f != sorted(f) for f in l["files"])]
+                for lay in (L[1:] if tier == "thorough" else [L[-1], L[len(L) // 2], L[-2], nonmono[0], nonmono[-1]]):
                     v = [None] * nlev
                     v[lv] = lay
                     lays.append(v)
